@@ -421,7 +421,7 @@ func c05Recover(f func()) (p any) {
 // ---------------------------------------------------------------- pure sub-check
 
 func RunC05Pure(ctx *core.Ctx) {
-	ctx.SetRule("pure functions of the statistics code on generated inputs: truncateLarge{Min,Max}ByteArrayValue (0xFF-heavy strings, limits 0..66), Page.Bounds() of every column kind through the type's column buffer and the min/max/bounds kernels (NaN first/last/all/sprinkled, -0.0/+0.0, signed/unsigned extremes, lengths around vector widths), orderOf* kernels, Type.Compare, and ColumnIndexer.IndexPage/ColumnIndex with null pages anywhere and limits 1..64; each compared with the Lean mirror (L2) and with the property's oracle (L1); distinct by canonical input text, non-trivial = at least 2 values / pages (truncation: value longer than the limit)")
+	ctx.SetRule("pure functions of the statistics code on generated inputs: truncateLarge{Min,Max}ByteArrayValue (0xFF-heavy strings, limits 0..66), Page.Bounds() of every column kind through the type's column buffer, Dictionary.Bounds(indexes) of every kind (the bounds of dictionary-encoded pages, with unreferenced dictionary entries) and the min/max/bounds kernels (NaN first/last/all/sprinkled, -0.0/+0.0, signed/unsigned extremes, lengths around vector widths), orderOf* kernels and orderOfDecimalBytes (mixed-width two's complement, equal values in different widths), Type.Compare, and ColumnIndexer.IndexPage/ColumnIndex with null pages anywhere and limits 1..64; each compared with the Lean mirror (L2) and with the property's oracle (L1); distinct by canonical input text, non-trivial = at least 2 values / pages (truncation: value longer than the limit)")
 	if ctx.Replay != "" {
 		b := &c05Batch{ctx: ctx, d: ctx.Driver()}
 		c05ReplayPure(ctx, b)
@@ -1430,7 +1430,7 @@ func c05IndexCase(ctx *core.Ctx, b *c05Batch, k *c05Kind, lim int, pages []*[2]c
 			ctx.Fail("L1", "index-min-above-page-min "+k.name, "column index min entry is greater than the page min", d)
 		}
 		if k.cmp(mx, p[1]) < 0 {
-			if k.isBytes() && len(p[1].b) > lim && c05AllFF(p[1].b[:lim]) {
+			if k.isBytes() && k.drv != "dec" && len(p[1].b) > lim && c05AllFF(p[1].b[:lim]) {
 				ctx.Fail("L1", "truncmax-all-ff-prefix", "column index max entry is smaller than the page max (truncated prefix all 0xFF)", d)
 			} else {
 				ctx.Fail("L1", "index-max-below-page-max "+k.name, "column index max entry is smaller than the page max", d)
